@@ -311,7 +311,8 @@ def oracle_session(c):
     _last["status"] = status
     _last["len"] = len(SESSION_TEXT)
     if status == "slow":
-        return [Failure(f"slow:after_session:{c['kind']}:{c['session']}", f"after {c['n']} parses under {c['session']!r} in the same process, parsing {len(SESSION_TEXT)} ordinary characters took {cpu:.1f} s of CPU",
+        return [Failure(f"slow:after_session:{c['kind']}:{c['session']}", f"a session of {c['n']} short parses under {c['session']!r} followed by one ordinary description of {len(SESSION_TEXT)} characters: {cpu:.1f} s of CPU "
+                        f"(limit {timing.THRESHOLD_CPU_S} s for the description, {c['n'] * 0.006 + timing.THRESHOLD_CPU_S:.0f} s for the session)",
                         cpu=cpu, session=c["session"])]
     if status == "inconclusive":
         note_excluded("inconclusive_wall_timeout_without_cpu")
